@@ -5,7 +5,8 @@ from props import hc_common as H
 from gen_hc import Sim, Net, pick_cfg, random_traffic, pick_len
 
 PROP = "C20"
-LAKE_TARGETS = ["Uflow.Props.C20", "uflow_driver"]
+LAKE_TARGETS = ["Uflow.Props.C20", "Uflow.Props.C20Hc", "uflow_driver"]
+PROPS_FILES = ["C20", "C20Hc"]
 TRUSTED_BASE = [
     "Lean 4.33 kernel; axioms per theorem under coverage.axioms (propext, Quot.sound)",
     "tools/extract_consts.py (MAX_FRAGMENT_SIZE, PACKET_ID_SPAN, CHANNEL_COUNT)",
